@@ -164,6 +164,10 @@ func buildEventQuery(
 		if f.Tags != nil {
 			sub = sub.Distinct()
 
+			// Number the aliases: SQLite identifiers are case-insensitive, so
+			// aliases derived from the tag names "e" and "E" would collide.
+			tagIdx := 0
+
 			for key, values := range f.Tags {
 				tagHashes := make([][]byte, len(values))
 				for i, value := range values {
@@ -171,7 +175,8 @@ func buildEventQuery(
 					tagHashes[i] = b[:]
 				}
 
-				etag := t.As("etag" + key)
+				etag := t.As(fmt.Sprintf("etag%d", tagIdx))
+				tagIdx++
 
 				sub = sub.
 					Join(etag, goqu.On(
